@@ -109,7 +109,7 @@ UNGRAMMATICAL = [
     '1 + 2 设为 3', '（显示）设为1', '甲 + + 乙', '甲 * / 乙', '令1 + 2设为3', '甲 且 或 乙',
     # a loop variable that is not a name (one of two, or both), a parameter / 得到 target that is not a name
     '以“键”、值遍历典：\n    （显示：值）', '以键、值 + 1遍历典：\n    （显示：键）', '以“键”、“值”遍历典：\n    （显示：1）', '以甲#1遍历典：\n    （显示：1）',
-    '以（f）、值遍历典：\n    （显示：值）', '以键、【1】遍历典：\n    （显示：键）', '如何f？\n    输入“甲”\n    输出1', '（f）得到“甲”', '（f）得到甲 + 1',
+    '以（f）、值遍历典：\n    （显示：值）', '以键、【1】遍历典：\n    （显示：键）', '如何f？\n    输入“甲”\n    输出1', '（f）得到“甲”',
     # two statements on a line without ；
     '令甲设为1 令乙设为2', '输出1 输出2', '（显示：1）（显示：2）',
 ]
